@@ -23,7 +23,7 @@ CLAIMS = {
   'deterministic simulation with enumerated resource-exhaustion fault (stack size axis) and poisoned-memory fault; per-access invariant monitor plus differential oracle'),
  'C05': ('fault_enumeration', '3 C05',
   'The fault axis is enumerated: every fault kind x operator/element type/storage class x boundary index/divisor/length with its nearest harmless neighbours (936 matrix programs whose expected flag is derived independently of the reference model and cross-checked with it), plus the same faults planted at seeded positions inside loops, callees and try bodies of generated programs; exact flag sequence, intact prefix and nothing-after are checked on the committed timeline. As built the length part runs every length (incl. values whose byte size wraps to a small number) at every word size {2,3,4,8}; the matrix has 1241 programs.',
-  'Flag for bad lengths is stack_overflow as the implementation/upstream tests define; bool lengths within 7 of the largest signed value are not probed (README silent).',
+  'Flag for bad lengths is stack_overflow as the implementation/upstream tests define; bool lengths within 7 of the largest signed value are probed with a stack large enough to hold them (F19).',
   'deterministic simulation with enumerated program-level fault injection; differential oracle vs reference model'),
  'C08': ('exploration', '3 C08',
   'Seeded programs with arrays at every nesting level of blocks, loops, calls and tries, left by every exit route chosen periodically by (i + sel) % M; M-scope samples (fp, ap) at every loop-head arrival within an activation, at call returns and at stop-handler entry, M-mem tracks array extents (release into a live array, access through a released origin); end-to-end: the measured minimal stack for k = M and k = 3M iterations must be equal and the long run at that stack must reproduce the reference history.',
